@@ -117,6 +117,8 @@ def _arg_forms(inp, xxs):
     form = inp.get('argform')
     ns = list(inp['ns'])
     grids = [x for x in xxs]
+    if inp.get('alias'):             # in.alias[a] = the axis whose grid OBJECT is passed for axis a as well (0-based)
+        grids = [grids[j] for j in inp['alias']]
     if form == 'tuple':
         ns, grids = tuple(ns), tuple(grids)
     elif form == 'array':
@@ -545,6 +547,7 @@ def records(ctx):
             limit(), 'Spectrum.from_phi_inbreeding[F->0]', 5)
     boundary_records(ctx, add, base_in)
     reuse_records(ctx, add, base_in)
+    alias_records(ctx, add, base_in)
     return balance(recs)
 
 
@@ -797,6 +800,81 @@ def reuse_records(ctx, add, base_in):
     series('inbreeding', [4, 2], [2, 4], [4, 3], inb=([0.0, 0.0], [2, 2]), tag='Spectrum.from_phi_inbreeding[F=0,%s]' % REUSED)
 
 
+ALIASED = 'one grid object for several axes'
+
+
+def alias_records(ctx, add, base_in):
+    """Aliasing between arguments (deterministic, both tiers): the SAME grid object is passed for several axes
+    (xxs = (xx, xx), (xx, xx, xx), (xx, yy, xx) ...) together with EQUAL sample sizes (ploidies) on those axes, on every
+    sampling path in 2-5 D: analytic, force_direct, het_ascertained for every population with force_direct on and off,
+    admix_props with force_direct on and off, inbreeding with every ascertainment choice.  in.alias[a] names the axis
+    whose grid object axis a shares (call_from_phi / call_inbreeding build the argument list from it, also on replay).
+    Judged by the ordinary clauses of the path: sampling is a function of the values of its arguments."""
+    rng = random.Random(ctx.seed + 1506)
+    turn = itertools.count()
+
+    def setup(P, alias, L, n, analytic=False):
+        k = next(turn)
+        kind = ('default', 'uniform', 'exp', 'random')[k % 4] if P < 4 else 'uniform'
+        g0 = make_grid(rng, L, kind, '')
+        xxs = []
+        for a in range(P):
+            if alias[a] != a:
+                xxs.append(xxs[alias[a]])
+            elif a == 1 and analytic:
+                xxs.append(g0.copy())          # the analytic rule needs equal values for the first two populations
+            else:
+                xxs.append(g0 if a == 0 else make_grid(rng, L, ('uniform', 'default')[(k + a) % 2], ''))
+        # equal sizes on axes that share a grid object; an axis with a grid of its own gets another size
+        ns = [n if alias[a] == 0 else n + 1 + (a + k) % 2 for a in range(P)]
+        phi = make_phi(rng, [len(x) for x in xxs], xxs, ('uniform', 'smooth', 'wide')[k % 3])
+        return k, xxs, ns, phi
+
+    def emit(path, P, alias, L, n, het=0, force=False, admix=None, cost=30):
+        k, xxs, ns, phi = setup(P, alias, L, n, analytic=(path == 'analytic'))
+        A = make_admix(rng, P, 'dyadic') if admix else ()
+        inp = base_in(phi, ns, xxs, mc=bool(k % 2), admix=A, het=het, force=force)
+        inp['alias'] = list(alias)
+        if k % 3 == 1:
+            inp['argform'] = 'tuple'
+        add('from_phi', inp, observe(lambda: call_from_phi(inp, phi, xxs)), site_of(P, path + ',' + ALIASED), cost)
+
+    def emit_inb(P, alias, L, het=0, sameF=True, cost=60):
+        k, xxs, ns, phi = setup(P, alias, L, 2)
+        pl = [2 if alias[a] == 0 else 3 for a in range(P)]
+        ns = [p * (2 if alias[a] == 0 else 1) for a, p in enumerate(pl)]
+        F0 = rng.choice([0.125, 0.25, 0.5])
+        Fs = [F0 if (sameF and alias[a] == 0) else rng.choice([0.1, 0.3, 0.7]) for a in range(P)]
+        inp = base_in(phi, ns, xxs, mc=bool(k % 2), het=het)
+        inp.update({'Fs': rats(Fs), 'ploidys': pl, 'alias': list(alias)})
+        if k % 3 == 1:
+            inp['argform'] = 'tuple'
+        add('from_phi_inbreeding', inp, observe(lambda: call_inbreeding(inp, phi, xxs)),
+            'Spectrum.from_phi_inbreeding[%dD,%s]' % (P, ALIASED), cost)
+
+    SIZE = {2: (4, 3), 3: (3, 2), 4: (3, 1), 5: (3, 1)}          # grid points, sample size on the aliased axes
+    COST = {2: 30, 3: 40, 4: 100, 5: 250}
+    PATTERNS = {2: [[0, 0]], 3: [[0, 0, 0], [0, 1, 0], [0, 0, 2]], 4: [[0, 0, 0, 0], [0, 1, 0, 1]], 5: [[0, 0, 0, 0, 0], [0, 0, 2, 0, 0]]}
+    for P in (2, 3, 4, 5):
+        L, n = SIZE[P]
+        for pi, alias in enumerate(PATTERNS[P]):
+            whole = pi == 0
+            if alias[1] == 0 or P == 2:
+                emit('analytic', P, alias, L, n, cost=COST[P])
+            if P == 5:
+                continue                       # five populations: only the analytic rule exists
+            emit('direct', P, alias, L, n, force=True, cost=COST[P])
+            for het in range(1, min(P, 3) + 1):
+                for force in ((False, True) if whole else (bool((het + pi) % 2),)):
+                    emit('het', P, alias, L, n, het=het, force=force, cost=COST[P])
+            for force in ((False, True) if whole else (bool(pi % 2),)):
+                emit('admix', P, alias, L, min(n, 2), force=force, admix=True, cost=COST[P] * 2)
+            if P <= 3:
+                for het in range(0, P + 1):
+                    if whole or het in (0, 1 + [a for a in range(P) if alias[a] == 0 and a > 0][0]):
+                        emit_inb(P, alias, L, het=het, sameF=bool(het % 2 == 0), cost=COST[P] * 2)
+
+
 def balance(recs, bins=8):
     """Order the records so that the pipeline's contiguous batches carry similar estimated work."""
     order = sorted(range(len(recs)), key=lambda j: -float(recs[j]['_cost']))
@@ -820,7 +898,8 @@ def nontrivial(r):
         return (r['op'], r['site'], 'raised')
     perturbed = any(g[0] != '0' or g[-1] != '1' for g in i['grids'])
     return (r['op'], r['site'], tuple(i['ns']), tuple(i['phi']['sh']), i['het'], bool(i['admix']), perturbed,
-            tuple(i.get('ploidys', ())) if r['op'] == 'from_phi_inbreeding' else (), i.get('nth'))
+            tuple(i.get('ploidys', ())) if r['op'] == 'from_phi_inbreeding' else (), i.get('nth'),
+            tuple(i.get('alias', ())))
 
 
 _mut_turn = itertools.count()
@@ -892,6 +971,10 @@ def what_of(rec, clause):
     """Description only (the verdict is TLC's)."""
     i = rec['in']
     txt = 'record %s (%s): clause %s violated' % (rec['id'], rec.get('site', rec['op']), clause)
+    if 'alias' in i:
+        txt += '; the SAME grid object is passed for the axes %s (in.alias = %s), ns=%s, het_ascertained=%s, force_direct=%s%s' % (
+            [a for a in range(len(i['alias'])) if i['alias'].count(i['alias'][a]) > 1], i['alias'], i['ns'], HET[i['het']], i['force'],
+            ', admix_props' if i['admix'] else '')
     if 'nth' not in i:
         return txt
     calls = ', then '.join('ns=%s' % z for z in list(i['prior']) + [i['ns']])
@@ -938,7 +1021,9 @@ def run(ctx):
              'and analytic-vs-direct refinement records; reuse block (sites "...,arguments reused"): every path (analytic / force_direct 1-5 D, '
              'het_ascertained per population 1-4 D, admix_props 2-4 D, inbreeding 1-3 D, F = 0) called three times on ONE density / grid / option '
              'object set (ns, ns again, other sizes), each call judged against the density as written plus bit-exact before / after encodings of '
-             'all argument objects (clause ArgumentsUnchangedBySampling[argument])',
+             'all argument objects (clause ArgumentsUnchangedBySampling[argument]); aliasing block (sites "...,one grid object for several '
+             'axes"): every path in 2-5 D with the SAME grid object passed for several / all axes and equal sample sizes on those axes '
+             '(analytic, force_direct, every het_ascertained choice with force_direct on and off, admix_props, inbreeding)',
         assumptions=['BigInteger rational arithmetic of the Rat and Sampling overrides (self-tested against the TLA+ definitions)',
                      'tolerance 1e-10 (inbreeding path, evaluated through lgamma/exp: 1e-9) relative to the largest exact entry of the output',
                      'grids whose end points overshoot [0,1] by ~1e-16 denote the grid with the end points at 0 and 1',
